@@ -31,6 +31,9 @@ STAT_CHOICES = ([list(s) for k in range(1, 8) for s in itertools.combinations(DE
                 + [DEFAULT[::-1], USER, ["sum", "dsum", "n", "count"], ["range", "max", "min"],
                    ["var", "sumsq", "mean"], ["count", "std", "n", "dsum", "min"]])
 
+# user reducers registered under BUILT-IN names: each name carries a different member of the reducer family
+ALIAS = {"mean": "max", "max": "range", "min": "n", "sum": "sumsq", "std": "var", "var": "dsum", "count": "sum"}
+
 INV = ["TypeOK", "SortedOK", "BreaksOK", "SliceIsZone", "FilteredIsValid", "RowsOK", "TableOK", "RasterOK"]
 STATS_M = '{"mean", "max", "min", "sum", "var", "count", "range"}'
 TODAY = '{"dropneginf"}'  # the variant of the transcription describing /repo today (after fix 7d7d291)
@@ -91,6 +94,12 @@ def stats_job(rng, z, v, H, W, rt, vs=1, nds=ND6, idlists=IDLISTS, backend="nump
     job = {"fn": "stats", "H": H, "W": W, "z": list(z), "v": list(v), "vs": vs, "zdt": zdt, "vdt": vdt,
            "nd": rng.choice(nds), "all": all_, "ids": ids, "stats": stats, "rt": rt,
            "backend": backend, "steps": backend == "numpy", "tag": tag}
+    if backend == "numpy" and vdt != "float32" and rng.random() < 0.15:
+        # a dict stats_funcs whose KEYS are built-in names (each bound to a different reducer) next to fresh names
+        keys = rng.sample(DEFAULT, rng.randrange(1, 5))
+        fresh = rng.sample(USER, rng.randrange(0, 3))
+        job["keys"] = keys + fresh
+        job["stats"] = [ALIAS[k] for k in keys] + fresh
     return U.vary(rng, job, list(v))
 
 
@@ -125,6 +134,46 @@ def matrix_jobs(seed, nrasters, tag="layout_matrix"):
                 j.update(zlay=zl, vlay=vl, rt="df" if (k + a + c) % 2 else "da", tag=tag)
                 jobs.append(j)
     return jobs
+
+
+def seq_jobs(seed, count, tag="sequence"):
+    """call sequences on the SAME DataArray objects: stats, edit zones and/or values in place (cells to another zone,
+    to NaN, values changed), stats again (same or other statistics / return type / selection), twice.
+    share = zones: the same zones object with a new values object per call; values: vice versa."""
+    rng = random.Random(seed * 7919 + 11)
+    base = [j for j in random_jobs(seed + 29, 4 * count) if j["H"] > 1][:count]
+    out = []
+    for b in base:
+        b = dict(b, zdt="float64", vdt="float64", tag=tag)
+        if "nd_raw" in b:
+            del b["nd_raw"]
+            b["nd"] = NONE
+        H, W, vs = b["H"], b["W"], b["vs"]
+        zpool = sorted({c for c in b["z"] if U.finite(c)}) + [6, NAN]
+        vpool = [c for c in b["v"] if U.finite(c)][:6] + [3 * vs, -5 * vs, NAN]
+        steps, z, v = [b], list(b["z"]), list(b["v"])
+        for _k in range(2):
+            what = rng.choice(["z", "z", "v", "zv"])
+            if "z" in what:
+                z = U.mutate_codes(rng, z, W, zpool)
+            if "v" in what:
+                v = U.mutate_codes(rng, v, W, vpool)
+            if rng.random() < 0.5:      # the very same call on the edited objects
+                nj = dict(steps[-1], z=list(z), v=list(v))
+            else:                       # other statistics / return type / selection
+                present = sorted({c for c in z if U.finite(c)})
+                idl = [present[:1], present[::-1], present[1:] + [998], [998]]
+                nj = stats_job(rng, z, v, H, W, rng.choice(["df", "da"]), vs=vs, nds=[NONE, NAN, b["nd"]],
+                               idlists=idl, tag=tag, p_all=0.4)
+                nj.pop("nd_raw", None)
+                if nj["nd"] == U.ODD_NODATA:
+                    nj["nd"] = NONE
+                for f in ("zdt", "vdt", "zlay", "vlay", "dims", "vs"):
+                    nj[f] = b[f]
+            steps.append(nj)
+        out.append({"fn": "seq", "share": rng.choice(["both", "both", "zones", "values"]), "steps": steps,
+                    "backend": "numpy", "tag": tag})
+    return out
 
 
 def random_jobs(seed, count, backend="numpy", tag="random"):
@@ -221,6 +270,8 @@ def handle(ctx, fails, cases, verdicts, kind):
             ctx.nontrivial(hash((tuple(case["z"]), tuple(case["v"]), case["nd"], tuple(case["ids"]), case["rt"])))
         if cl != "ok":
             job = case["job"]
+            if "focus" in job:
+                kind = "call %d of a sequence on shared objects (share=%s)" % (job["focus"] + 1, job["seq_job"]["share"])
             fails.add(classify(case, cl), cl, case,
                       "%s %dx%d %s backend=%s zones=%s values=%s nodata=%s zone_ids=%s stats=%s"
                       % (kind, job["H"], job["W"], job["rt"], job.get("backend"), case["z"], case["v"], case["nd"],
@@ -235,6 +286,7 @@ def run_batch(ctx, fails, jobs, name, kind, size=80000):
     for part in U.chunks(jobs, size):
         cases = core.run_jobs("zonal_worker", part, nproc=U.nproc_for(part))
         U.check_worker(cases)
+        cases = U.flatten(cases)
         good = [c for c in cases if "error" not in c]
         v = ctx.judge("ZonalStats_Judge", [U.strip(c) for c in good], name="%s_%d" % (name, done),
                       constants=dict(CODEVARIANT=R(CODEVARIANT)), parallel=8)
@@ -267,8 +319,10 @@ def scope_check(ctx, jobs, n, zalpha, valpha, name):
 def replay(ctx, rec):
     """re-run exactly the recorded case through the real code and the judge"""
     job = rec["case"] if "fn" in rec["case"] else rec["case"]["job"]
+    job = job.get("seq_job", job)          # a step of a call sequence: re-run the whole sequence
     cases = core.run_jobs("zonal_worker", [job], nproc=1)
     U.check_worker(cases)
+    cases = U.flatten(cases)
     fails = U.Failures(ctx)
     good = [c for c in cases if "error" not in c]
     v = ctx.judge("ZonalStats_Judge", [U.strip(c) for c in good], name="replay",
@@ -276,7 +330,7 @@ def replay(ctx, rec):
     handle(ctx, fails, cases, v if good else {}, "replay")
     ctx.sample({"replayed": rec.get("clause"), "key": rec.get("key"),
                 "verdict": v.get(0) if good else cases[0].get("error")})
-    print("REPLAY verdict: %s" % (v.get(0) if good else cases[0].get("error")), flush=True)
+    print("REPLAY verdict: %s" % ([v.get(k) for k in range(len(good))] if good else cases[0].get("error")), flush=True)
     fails.report()
 
 
@@ -306,6 +360,7 @@ def run(ctx):
     # ---- T: seeded larger rasters (same worker processes / judge JVMs as R: start-up dominates the quick tier)
     jobs += random_jobs(ctx.seed, ctx.pick(1500, 40000))
     jobs += matrix_jobs(ctx.seed, ctx.pick(60, 600))
+    jobs += seq_jobs(ctx.seed, ctx.pick(300, 3000))
     run_batch(ctx, fails, jobs, "replay_and_random", "R/T")
     if thorough:
         run_batch(ctx, fails, enum_jobs(ctx.seed + 2, 4, Z6, V5, both=False, tag="all_n4"), "replay_n4", "R")
